@@ -17,6 +17,7 @@ public:
     const std::string &label() const;
     Item *twin();
     int combine(const Item &other) const;
+    int addAll(const std::vector<int> &v) const;
 private:
     void born();
     unsigned m_magic;
@@ -107,6 +108,7 @@ int *arrLib(int *len);
 double *arrNewAlloc(int n, int *len);
 int *arrNewPat(int n, int *len);
 int arrSum(const int *arr, int n);
+int arrSumD(const double *arr, int n);
 void arrFillOut(int n, double *out);
 void arrWeights(int *values, int nvalues, const int *weights, int nweights);
 void charGrow(char *s);
